@@ -298,6 +298,23 @@ def _patterns(kind, idxs, arity, op):
             yield pat
 
 
+def _patterns_outside(kind, idxs, arity, op):
+    """Patterns with one wildcard-free coordinate far outside the domain."""
+    if arity < 2 or arity > 3 or not idxs:
+        return
+    if kind in ("new_combinations", "new_permutations", "new_words",
+                "new_combinations_with_replacement"):
+        return
+    top = max(max(t) for t in idxs)
+    for i in range(arity):
+        for val in (0, -1, top + 7):
+            if kind == "new_binary_mapping" and i == 1 and val == 0:
+                continue
+            pat = [None] * arity
+            pat[i] = val
+            yield tuple(pat)
+
+
 def execute(case, ctx):
     klass = case["class"]
     if klass == "cnf":
@@ -524,6 +541,23 @@ def execute(case, ctx):
                 bad("wildcard/%s" % kind, "g%r = %r, expected %r" %
                     (pat, a[1], want))
             ctx.probe("wildcard pattern checked")
+        # a wildcard pattern whose fixed coordinate is outside the domain
+        # matches no variable: it is refused (or enumerates nothing), it
+        # never answers with identifiers
+        for pat in _patterns_outside(kind, idxs, arity, op):
+            a = call(lambda: list(g(*pat)))
+            if a[0] == "ok" and a[1]:
+                bad("illegal-pattern-accepted/%s" % kind,
+                    "g%r -> %r" % (pat, a[1]))
+            if a[0] == "exc" and not isinstance(a[1], ValueError):
+                bad_exc("illegal-pattern-wrong-error/%s" % kind, a[1])
+            b = call(lambda: list(g.label(*pat)))
+            if b[0] == "ok" and b[1]:
+                bad("illegal-pattern-accepted/%s" % kind,
+                    "label%r -> %r" % (pat, b[1]))
+            if b[0] == "exc" and not isinstance(b[1], ValueError):
+                bad_exc("illegal-pattern-wrong-error/%s" % kind, b[1])
+            ctx.probe("out-of-domain wildcard pattern refused")
 
     # ---- renderings use the same table ------------------------------------
     if klass == "cnf":
